@@ -1821,6 +1821,11 @@ pub struct VerifSnapshot<T> {
     pub custom_broadcasts: Vec<(usize, Vec<u8>)>,
     pub updates_buf_len: usize,
     pub send_buf_capacity: usize,
+    /// Scratch buffers: carry nothing between calls on a correct tree,
+    /// part of the state so that a leak through them is explored
+    pub choice_buf: Vec<Member<T>>,
+    pub updates_buf: Vec<Member<T>>,
+    pub flop_lens: (usize, usize),
     pub config: alloc::string::String,
 }
 
@@ -1885,6 +1890,12 @@ where
                 .collect(),
             updates_buf_len: self.updates_buf.len(),
             send_buf_capacity: self.send_buf.capacity(),
+            choice_buf: self.choice_buf.clone(),
+            updates_buf: self.updates_buf.clone(),
+            flop_lens: (
+                self.updates.verif_flop_len(),
+                self.custom_broadcasts.verif_flop_len(),
+            ),
             config: alloc::format!("{:?}", self.config),
         }
     }
